@@ -12,6 +12,7 @@ harness/faultinj.c.
 import hashlib
 import os
 import re
+import selectors
 import subprocess
 import tempfile
 import threading
@@ -104,7 +105,9 @@ def run_filter(argv, data, env=None, timeout=10.0, stdout_limit=None, sigpipe="d
     safe to call from several python threads).
     stdout_limit: if not None, read only that many bytes from the child's stdout and then
     close the read end (a genuinely early-closed pipe, like `| head -c k`).
-    A run that is still alive after `timeout` seconds is killed and reported as hung."""
+    A run that is still alive after `timeout` seconds with every thread asleep is killed and
+    reported as hung; if some thread is runnable (overloaded machine) and the child has used
+    little CPU so far, the deadline is extended, at most 6 times."""
     e = {"PATH": os.environ.get("PATH", "/usr/bin:/bin")}
     for k in keep_env:
         if k in os.environ:
@@ -114,43 +117,113 @@ def run_filter(argv, data, env=None, timeout=10.0, stdout_limit=None, sigpipe="d
     if sigpipe == "ignore":
         argv = ["/bin/sh", "-c", 'trap "" PIPE XFSZ; exec "$@"', "sh"] + list(argv)
     t0 = time.time()
-    state = {"hung": False}
-    with tempfile.TemporaryFile() as fin, tempfile.TemporaryFile() as ferr:
+    err_cap = 1 << 18
+    with tempfile.TemporaryFile() as fin:
         fin.write(data)
         fin.seek(0)
-        p = subprocess.Popen(argv, stdin=fin, stdout=subprocess.PIPE, stderr=ferr, env=e, close_fds=True)
+        p = subprocess.Popen(argv, stdin=fin, stdout=subprocess.PIPE, stderr=subprocess.PIPE, env=e, close_fds=True,
+                             start_new_session=True)
 
-        def watchdog():
-            if p.poll() is None:
-                state["hung"] = True
-                try:
-                    p.kill()
-                except Exception:
-                    pass
-
-        timer = threading.Timer(timeout, watchdog)
-        timer.daemon = True
-        timer.start()
-        out = b""
+    def busy(pid):
+        """True if some thread of the child is runnable or in disk wait, i.e. the child is
+        slow (machine overloaded) rather than stuck.  A hung process has every thread asleep."""
         try:
-            if stdout_limit is None:
-                out = p.stdout.read()
+            for t in os.listdir("/proc/%d/task" % pid):
+                with open("/proc/%d/task/%s/stat" % (pid, t)) as f:
+                    st = f.read().rsplit(")", 1)[1].split()[0]
+                if st in ("R", "D"):
+                    return True
+        except Exception:
+            pass
+        return False
+
+    def cpu_seconds(pid):
+        try:
+            with open("/proc/%d/stat" % pid) as f:
+                fs = f.read().rsplit(")", 1)[1].split()
+            return (int(fs[11]) + int(fs[12])) / float(os.sysconf("SC_CLK_TCK"))
+        except Exception:
+            return 0.0
+
+    out = bytearray()
+    err = bytearray()
+    hung = False
+    runaway = False
+    extensions = 0
+    deadline = t0 + timeout
+    sel = selectors.DefaultSelector()
+    fo, fe = p.stdout.fileno(), p.stderr.fileno()
+    sel.register(fo, selectors.EVENT_READ, "out")
+    sel.register(fe, selectors.EVENT_READ, "err")
+    open_fds = {"out": fo, "err": fe}
+    if stdout_limit is not None and stdout_limit == 0:
+        sel.unregister(fo)
+        p.stdout.close()
+        del open_fds["out"]
+    try:
+        while (open_fds and not (hung and p.poll() is not None)) or p.poll() is None:
+            now = time.time()
+            exited = p.poll() is not None
+            if open_fds:
+                events = sel.select(timeout=0.05 if exited else max(0.0, min(0.25, deadline - now)))
+                if exited and not events:
+                    break                           # the child is gone; whoever still holds the pipes is not our business
             else:
-                got = 0
-                while got < stdout_limit:
-                    chunk = p.stdout.read(min(65536, stdout_limit - got))
-                    if not chunk:
-                        break
+                events = []
+                time.sleep(0.01)
+            for key, _ in events:
+                which = key.data
+                try:
+                    chunk = os.read(key.fd, 65536)
+                except OSError:
+                    chunk = b""
+                if not chunk:
+                    sel.unregister(key.fd)
+                    (p.stdout if which == "out" else p.stderr).close()
+                    del open_fds[which]
+                    continue
+                if which == "out":
+                    if stdout_limit is not None:
+                        chunk = chunk[:max(0, stdout_limit - len(out))]
                     out += chunk
-                    got += len(chunk)
-            p.stdout.close()
+                    if stdout_limit is not None and len(out) >= stdout_limit:
+                        sel.unregister(key.fd)      # the reader goes away: a genuinely closed pipe
+                        p.stdout.close()
+                        del open_fds["out"]
+                else:
+                    if len(err) < err_cap:
+                        err += chunk[:err_cap - len(err)]
+                    else:
+                        runaway = True              # flooding stderr: certainly not terminating promptly
+            if p.poll() is None and (runaway or time.time() > deadline):
+                if (not runaway and extensions < 6 and cpu_seconds(p.pid) < max(3.0, timeout / 2)
+                        and any(busy(p.pid) or time.sleep(0.05) for _ in range(10))):
+                    extensions += 1                 # overloaded machine, not a hang
+                    deadline = time.time() + timeout
+                else:
+                    hung = True
+                    try:
+                        os.killpg(p.pid, 9)
+                    except Exception:
+                        try:
+                            p.kill()
+                        except Exception:
+                            pass
+                    deadline = time.time() + 3600
+        p.wait()
+    finally:
+        for f in (p.stdout, p.stderr):
+            try:
+                if f and not f.closed:
+                    f.close()
+            except Exception:
+                pass
+        sel.close()
+        if p.poll() is None:
+            p.kill()
             p.wait()
-        finally:
-            timer.cancel()
-        ferr.seek(0)
-        err = ferr.read()
     rc = p.returncode
-    hung = state["hung"]
     return {"rc": rc if (rc is not None and rc >= 0 and not hung) else None,
             "sig": -rc if (rc is not None and rc < 0 and not hung) else None,
-            "hung": hung, "out": out, "err": err, "wall_s": round(time.time() - t0, 3)}
+            "hung": hung, "runaway": runaway, "out": bytes(out), "err": bytes(err),
+            "wall_s": round(time.time() - t0, 3), "extensions": extensions}
